@@ -51,6 +51,9 @@ enum Tail {
     /// the contents were produced by whole-vector writers (fill, serial and parallel flip), which must
     /// leave the unused bits of the last word clear like every other operation
     WholeVectorWriters,
+    /// clean last word, two extra backing words full of garbage (Rank9 documents that the content of an
+    /// extra word is irrelevant; every structure bounds its scans by the length, not by the backing slice)
+    SpareGarbageWords,
 }
 
 /// Builds the real bit vector holding `m.bits` with the given tail state.
@@ -94,6 +97,13 @@ fn build(m: &Model, tail: Tail) -> BitVec {
             } else {
                 c
             }
+        }
+        Tail::SpareGarbageWords => {
+            let b: BitVec = m.bits.iter().copied().collect();
+            let (mut w, l) = b.into_raw_parts();
+            w.push(usize::MAX);
+            w.push(0x5555_5555_5555_5555);
+            unsafe { BitVec::from_raw_parts(w, l) }
         }
         Tail::SpareDirtyWords => {
             let b: BitVec = m.bits.iter().copied().collect();
@@ -239,6 +249,8 @@ struct Run<'a> {
     m: &'a Model,
     pos: &'a [usize],
     vdesc: &'a str,
+    /// run only the stacks made of a rank structure alone
+    rank_only: bool,
 }
 
 macro_rules! stack {
@@ -251,7 +263,7 @@ macro_rules! stack {
         #[allow(unused_mut)]
         let mut caps = Caps { rank: false, sel: false, selz: false };
         $( stack!(@cap caps $cap); )*
-        let relevant = if want_rank { caps.rank } else { caps.sel || caps.selz };
+        let relevant = (if want_rank { caps.rank } else { caps.sel || caps.selz }) && !($run.rank_only && (caps.sel || caps.selz));
         if relevant {
             let vdesc = $run.vdesc;
             if $run.ctx.case(|| format!("{full_name} vector={vdesc}")) {
@@ -555,11 +567,16 @@ fn main() {
     let thorough = ctx.thorough();
     // Tail::SpareDirtyWords (garbage supplied through the unsafe from_raw_parts) is outside C01/C02: the
     // property quantifies over stale bits left by pop or truncation only.
-    let tails: &[Tail] = &[Tail::Fresh, Tail::Popped, Tail::Truncated, Tail::SpareZeroWords, Tail::WholeVectorWriters];
+    let tails: &[Tail] = &[Tail::Fresh, Tail::Popped, Tail::Truncated, Tail::SpareZeroWords, Tail::WholeVectorWriters, Tail::SpareGarbageWords];
     for (vname, bits) in vectors(thorough) {
         let m = Model::new(bits);
         let pos = positions(m.len());
         for &tail in tails {
+            // garbage in extra words: only for the rank structures alone (Rank9 documents that the content of an
+            // extra word is irrelevant); the selection structures scan the whole backing slice by design
+            if tail == Tail::SpareGarbageWords && prop != "C01" {
+                continue;
+            }
             // long vectors: dirty tails only for a subset to bound the cost
             if m.len() > 20_000 && !matches!(tail, Tail::Fresh | Tail::Truncated) {
                 continue;
@@ -576,7 +593,7 @@ fn main() {
                 }
             };
             ctx.count(&format!("tail_{tail:?}"));
-            let mut run = Run { ctx: &mut ctx, prop: prop.clone(), m: &m, pos: &pos, vdesc: &vdesc };
+            let mut run = Run { ctx: &mut ctx, prop: prop.clone(), m: &m, pos: &pos, vdesc: &vdesc, rank_only: tail == Tail::SpareGarbageWords };
             all_stacks(&mut run, &bv, thorough);
             // the hinted primitives of the bit vector itself, called within their contract: every (position, hint
             // word) / (rank, hint one) / (rank, hint zero) combination on vectors of up to 700 bits
